@@ -47,3 +47,51 @@ func extractIDs(e *extractor) {
 	}
 	fmt.Fprintf(&e.out, "\n(* xtype/type.go asID: identifiers returned for channel types (escaped first) *)\nDefinition x_chan_ids : list rstr := %s. (* %q *)\n", coqList(rs), lits)
 }
+
+func init() { extractParts = append(extractParts, extractHasMethod) }
+
+// extractHasMethod: the expression generator.hasMethod returns (the predicate behind useUnderlyingTypeMethods):
+// rendered as the selector chains of its calls joined by the operators, e.g. "extend.Has||lookup.Has".
+func extractHasMethod(e *extractor) {
+	expr := ""
+	if f := e.file("generator/generator.go"); f != nil {
+		for _, d := range f.Decls {
+			fd, ok := d.(*ast.FuncDecl)
+			if !ok || fd.Name.Name != "hasMethod" || fd.Body == nil {
+				continue
+			}
+			nret, nstmt := 0, len(fd.Body.List)
+			for _, st := range fd.Body.List {
+				if rs, ok := st.(*ast.ReturnStmt); ok && len(rs.Results) == 1 {
+					nret++
+					expr = renderCalls(rs.Results[0])
+				}
+			}
+			if nret != 1 || nstmt != 2 { // signature := ...; return ...
+				expr = fmt.Sprintf("unexpected shape (%d statements, %d returns): %s", nstmt, nret, expr)
+			}
+		}
+	}
+	fmt.Fprintf(&e.out, "(* generator.hasMethod: what it returns *)\nDefinition x_hasmethod_expr : rstr := %s. (* %q *)\n", runes(expr), expr)
+}
+
+func renderCalls(x ast.Expr) string {
+	switch v := x.(type) {
+	case *ast.BinaryExpr:
+		return renderCalls(v.X) + v.Op.String() + renderCalls(v.Y)
+	case *ast.ParenExpr:
+		return "(" + renderCalls(v.X) + ")"
+	case *ast.CallExpr:
+		return renderCalls(v.Fun)
+	case *ast.SelectorExpr:
+		if inner, ok := v.X.(*ast.SelectorExpr); ok {
+			return inner.Sel.Name + "." + v.Sel.Name
+		}
+		return v.Sel.Name
+	case *ast.UnaryExpr:
+		return v.Op.String() + renderCalls(v.X)
+	case *ast.Ident:
+		return v.Name
+	}
+	return "?"
+}
